@@ -100,6 +100,8 @@ def check_case(acc, chain_l, locking, load, init, sched, overload=False):
     order = {'run+continue': 'reverse', 'stop': 'matings-first', 'reset-rerun': 'joints-first'}.get(sched)
     if order:
         spec['declare_order'] = order
+    if sched in ('stop', 'coast'):
+        spec['subclass_elements'] = True       # every element is an instance of an empty user subclass of its class
     if sched == 'coast':
         if load[0] != 'const':
             return
